@@ -691,7 +691,11 @@ def render(lexemes, tape, style=None):
                 if k == 1:
                     sep = "\n" + " " * tape.choose(5, "indent")
                 elif k == 2:
-                    sep = " /* %s */ " % tape.pick(COMMENT_WORDS, "cw").replace("*/", "* /")
+                    # block comments in every star pattern people write: /** doc **/, banners, /*/ ... */
+                    shape = tape.pick(["/* %s */", "/* %s */", "/** %s **/", "/* %s **/", "/*** %s ***/", "/***/", "/**/",
+                                       "/*****/", "/*/ %s */", "/* %s\n * continued\n **/"], "comment-shape")
+                    word = tape.pick(COMMENT_WORDS, "cw").replace("*/", "* /")
+                    sep = " " + (shape % word if "%s" in shape else shape) + " "
                 elif k == 3:
                     sep = " // %s\n" % tape.pick(COMMENT_WORDS, "cw")
                 elif k == 4:
